@@ -502,6 +502,7 @@ pub fn check(ctx: &Ctx, p: &Prog) {
             } else {
                 ctx.count("valid_programs_compared", 1);
                 across_files(ctx, p, a, &feat);
+                crate::props::variants::check_one(ctx, &p.nodes, a, &mut Rng::for_case(fw::hash_str(&src), 0x7A80, 0), "macro");
             }
         }
         _ => {}
@@ -733,7 +734,7 @@ pub fn run(ctx: &Ctx) -> i32 {
     });
     fw::finish(
         ctx,
-        "programs with 1-4 macro definitions (0-10 parameters; bodies of ldi/mov/ld/st/ldd/std/out with register, index and displacement parameters, .dw/.db on parameters incl. inside larger expressions, .if on a parameter, nested calls passing parameters on, .dseg/.eseg switches returning to .cseg, lines differing only in the letter case of a string or character literal, emit-once blocks (.ifndef F / #define F / ... / .else) and #define flags set by one macro and tested by another; names in mixed case, .endm/.endmacro) and 1-6 calls in any letter case, before or after the definition, (1 in 3 repeated verbatim, directly or after another call) with registers, all nine index forms, Y/Z displacements and random expressions of every precedence as arguments; 1 in 6 programs calls an undefined macro or omits a used argument (must fail); fixed probes for the argument shapes the statement names; plus bodies that place things (.org as first, middle or last body line with origin and contents as parameters, in all three segments, also nested, the caller going on behind the call with labels referenced across calls; calls written under .dseg and .eseg) compared with the program written out; every valid program once more with a random run of its top-level lines moved into an included file (calls before their definition across the file boundary, definitions in the included file) built through build_file; distinct_nontrivial = distinct program texts",
+        "programs with 1-4 macro definitions (0-10 parameters; bodies of ldi/mov/ld/st/ldd/std/out with register, index and displacement parameters, .dw/.db on parameters incl. inside larger expressions, .if on a parameter, nested calls passing parameters on, .dseg/.eseg switches returning to .cseg, lines differing only in the letter case of a string or character literal, emit-once blocks (.ifndef F / #define F / ... / .else) and #define flags set by one macro and tested by another; names in mixed case, .endm/.endmacro) and 1-6 calls in any letter case, before or after the definition, (1 in 3 repeated verbatim, directly or after another call) with registers, all nine index forms, Y/Z displacements and random expressions of every precedence as arguments; 1 in 6 programs calls an undefined macro or omits a used argument (must fail); fixed probes for the argument shapes the statement names; plus bodies that place things (.org as first, middle or last body line with origin and contents as parameters, in all three segments, also nested, the caller going on behind the call with labels referenced across calls; calls written under .dseg and .eseg) compared with the program written out; every valid program once more with a random run of its top-level lines moved into an included file (calls before their definition across the file boundary, definitions in the included file) built through build_file; every valid program once more in one randomly chosen setting that means nothing (as a file beginning with blank lines / CRLF / no final line end; a run of top-level lines in an included file; inside a selected branch; followed by .exit and unread text; preceded by unused definitions; respelled; branch and included file at once) with the same images, sizes, RAM extent and message texts required (props/variants.rs; counters variants:*); distinct_nontrivial = distinct program texts",
         &[
             "hand expansion is done on the IR (refmodel/layout.rs::expand_macros): an argument is substituted as a value (parenthesised when it lands inside a larger expression)",
             "a parameter used inside a larger expression is only called with atomic, parenthesised or function-call arguments; labels and messages inside bodies are not generated",
@@ -742,6 +743,9 @@ pub fn run(ctx: &Ctx) -> i32 {
 }
 
 pub fn replay(ctx: &Ctx, case: &Value) -> i32 {
+    if case.get("variant").is_some() {
+        return crate::props::variants::replay(ctx, case);
+    }
     let src = case["source"].as_str().unwrap_or("");
     let a = fw::build_str(src);
     ctx.eval(1);
